@@ -73,6 +73,15 @@ func (sv structValue) PropertyValue(index Value) Value {
 	return nilValue
 }
 
+// A MethodError is the error that a method or function-valued field of a bound
+// struct returned when a template read it as a property.
+type MethodError struct{ Err error }
+
+func (e MethodError) Error() string { return e.Err.Error() }
+
+// Unwrap returns the method's error.
+func (e MethodError) Unwrap() error { return e.Err }
+
 const tagKey = "liquid"
 
 // like FieldByName, but obeys `liquid:"name"` tags
@@ -110,7 +119,8 @@ func (sv structValue) invoke(fv reflect.Value) Value {
 	}
 	results := fv.Call([]reflect.Value{})
 	if len(results) > 1 && !results[1].IsNil() {
-		panic(results[1].Interface())
+		// the method's own error, not a fault in it: Evaluate returns it as the error of the expression
+		panic(MethodError{results[1].Interface().(error)})
 	}
 	return ValueOf(results[0].Interface())
 }
